@@ -4,7 +4,7 @@
    translator (Generated/GC17.v: DefaultPolicy numbers, DefaultPredicate status
    branch, whether the jitter draw is guarded) and by the correspondence run. *)
 From Coq Require Import QArith.
-From Oras Require Import Base.Prelude Generated.GC17 Model.Retry Proofs.Retry.
+From Oras Require Import Base.Prelude Base.RetryTypes Generated.GC17 Model.Retry Proofs.Retry.
 Open Scope Z_scope.
 
 (* --- pacing ---------------------------------------------------------- *)
@@ -16,6 +16,23 @@ Theorem C17_pause_bounds :
     p_min p <= p_max p -> generic_retry p attempt o = DWait d -> p_min p <= d <= p_max p.
 Proof. exact generic_retry_bounds. Qed.
 Print Assumptions C17_pause_bounds.
+
+(* GenericPolicy.Retry as translated statement by statement from policy.go
+   (Generated.GC17.generated_retry) is the decision with the clamp in closed form *)
+Theorem C17_retry_decision_closed_form :
+  forall p attempt o,
+    generic_retry p attempt o =
+    if attempt >=? p_max_retry p then DStop
+    else match p_pred p o with
+         | PFail => DFail
+         | PStop => DStop
+         | PRetry => match p_backoff p attempt o with
+                     | BPanic => DPanic
+                     | BRet x => DWait (clamp (p_min p) (p_max p) x)
+                     end
+         end.
+Proof. exact generic_retry_eq. Qed.
+Print Assumptions C17_retry_decision_closed_form.
 
 (* the bounds are meant for MinWait <= MaxWait; for an ill-formed policy (MinWait > MaxWait)
    the code as written yields MaxWait for every pause *)
@@ -92,6 +109,43 @@ Theorem C17_stops_at_first_nonretryable :
 Proof. exact round_trip_stops_at_first_nonretryable. Qed.
 Print Assumptions C17_stops_at_first_nonretryable.
 
+(* --- refinement to a stateless specification ------------------------------------------ *)
+
+(* For a body that can always be replayed and a context that never ends, Transport.RoundTrip --
+   request state, GetBody counter, script threading, trace -- computes exactly spec_send: result,
+   end instant and the list (instant, bytes received) of all attempts, where attempt i receives
+   the prefix server i reads of the whole body and the pauses are the policy's decisions *)
+Theorem C17_round_trip_refines_spec :
+  forall p bd sc t,
+    wf_body bd -> replayable bd ->
+    let out := round_trip p None bd (init_state bd) sc t in
+    (o_res out, o_time out, attempts (o_trace out)) = spec_send p bd sc t.
+Proof. exact round_trip_refines_spec. Qed.
+Print Assumptions C17_round_trip_refines_spec.
+
+(* ... and so does the whole auth stack (first send, token request through the same transport,
+   re-send): result, end instant and the attempts of all three sends are those of spec_auth,
+   built from three uses of spec_send *)
+Theorem C17_auth_refines_spec :
+  forall p bd sc tb tsc,
+    wf_body bd -> replayable bd -> wf_body tb -> replayable tb ->
+    let a := auth_do_tok p None bd sc tb tsc in
+    (ak_res a, ak_time a, attempts (ak_first a), attempts (ak_token a), attempts (ak_second a))
+    = spec_auth p bd sc tb tsc.
+Proof. exact auth_do_tok_refines_spec. Qed.
+Print Assumptions C17_auth_refines_spec.
+
+(* ... and the whole blob push (POST, its token request, PUT, its token request) refines the
+   stateless spec_push built from spec_send *)
+Theorem C17_blob_push_refines_spec :
+  forall authc p bd sc tb tsc,
+    wf_body bd -> replayable bd -> wf_body tb -> replayable tb ->
+    let u := blob_push_tok authc p None bd sc tb tsc in
+    (uk_res u, uk_time u, show_authk (uk_post u), option_map show_authk (uk_put u))
+    = spec_push authc p bd sc tb tsc.
+Proof. exact blob_push_tok_refines_spec. Qed.
+Print Assumptions C17_blob_push_refines_spec.
+
 (* --- bodies ---------------------------------------------------------------- *)
 
 (* on attempt i the registry receives exactly what it reads of the complete original
@@ -126,6 +180,121 @@ Theorem C17_body_complete_auth :
       got = received bd (nth (0 + i) sc default_beh).
 Proof. exact auth_do_bodies. Qed.
 Print Assumptions C17_body_complete_auth.
+
+(* the statuses on which the re-send logic branches, as read from the sources (StatusCode
+   comparisons of auth.Client.Do, fetch*Token, blobStore.Push / completePushAfterInitialPost /
+   Mount, manifestStore.push, in source order): challenge 401, token 200, upload session 202,
+   created 201 *)
+Theorem C17_status_constants :
+  challenge_status = 401 /\ challenge_status_2 = 401 /\ token_ok_status = 200 /\ accepted_status = 202 /\
+  fetch_oauth2_status_cmps = fetch_distribution_status_cmps /\
+  blob_put_status_cmps = [(1, 201)] /\ manifest_push_status_cmps = [(1, 201)] /\
+  blob_mount_status_cmps = [(0, 201); (1, 202)].
+Proof. exact status_constants. Qed.
+Print Assumptions C17_status_constants.
+
+(* --- the token request of a Bearer challenge, inside the model ------------------------- *)
+
+(* auth.Client.Do with the token request spelled out (fetchDistributionToken: GET without body;
+   fetchOAuth2Token: POST with a replayable form; both through the same retrying transport):
+   every request to the registry (first send, re-send) carries the whole body, and every
+   attempt of the token request carries the whole form, as far as each is read *)
+Theorem C17_token_bodies :
+  forall p cn bd sc tb tsc,
+    wf_body bd -> wf_body tb ->
+    let a := auth_do_tok p cn bd sc tb tsc in
+    (forall i t got, nth_error (attempts (ak_first a) ++ attempts (ak_second a)) i = Some (t, got) ->
+       got = received bd (nth (0 + i) sc default_beh)) /\
+    (forall i t got, nth_error (attempts (ak_token a)) i = Some (t, got) ->
+       got = received tb (nth (0 + i) tsc default_beh)).
+Proof. exact auth_do_tok_bodies. Qed.
+Print Assumptions C17_token_bodies.
+
+(* each of the three sends (registry, token service, registry again) is bounded *)
+Theorem C17_token_attempts :
+  forall p cn bd sc tb tsc,
+    let a := auth_do_tok p cn bd sc tb tsc in
+    1 <= Z.of_nat (length (attempts (ak_first a))) <= Z.max 0 (p_max_retry p) + 1 /\
+    Z.of_nat (length (attempts (ak_token a))) <= Z.max 0 (p_max_retry p) + 1 /\
+    Z.of_nat (length (attempts (ak_second a))) <= Z.max 0 (p_max_retry p) + 1.
+Proof. exact auth_do_tok_attempts. Qed.
+Print Assumptions C17_token_attempts.
+
+(* a body that cannot be replayed reaches the registry once, whatever the token service does *)
+Theorem C17_token_not_replayable :
+  forall p cn bd sc tb tsc,
+    (forall st', rewind bd st' = RwNoGetBody \/ rewind bd st' = RwGetBodyErr) ->
+    let a := auth_do_tok p cn bd sc tb tsc in
+    length (attempts (ak_first a)) = 1%nat /\ ak_second a = [].
+Proof. exact auth_do_tok_not_replayable. Qed.
+Print Assumptions C17_token_not_replayable.
+
+(* cancellation over the registry sends and the token request *)
+Theorem C17_token_cancel :
+  forall p bd sc tb tsc tc dl,
+    let a := auth_do_tok p (Some (tc, dl)) bd sc tb tsc in
+    Forall (fun x => fst x < tc) (tl (attempts (ak_first a))) /\
+    Forall (fun x => fst x < tc) (tl (attempts (ak_token a))) /\
+    Forall (fun x => fst x < tc) (tl (attempts (ak_second a))) /\
+    ak_time a <= Z.max 0 tc /\
+    Forall (fun pd => fst pd + snd pd < tc \/ (ak_res a = RCtx /\ ak_time a = Z.max (fst pd) tc))
+           (pauses (ak_first a) ++ pauses (ak_token a) ++ pauses (ak_second a)).
+Proof. exact auth_do_tok_cancel. Qed.
+Print Assumptions C17_token_cancel.
+
+(* the same with a warm Bearer cache (cached token tried first, fresh token fetched when it is
+   refused): bodies of all three sends and of the token request, bounds, one-shot, cancellation *)
+Theorem C17_token_warm_bodies :
+  forall p cn bd sc tb tsc t0,
+    wf_body bd -> wf_body tb ->
+    let a := auth_do_tokw_at p cn bd sc tb tsc t0 in
+    bodies_ok bd sc 0 (attempts (aw_first a) ++ attempts (aw_second a) ++ attempts (aw_third a)) /\
+    bodies_ok tb tsc 0 (attempts (aw_token a)).
+Proof. exact auth_do_tokw_at_bodies. Qed.
+Print Assumptions C17_token_warm_bodies.
+
+Theorem C17_token_warm_attempts :
+  forall p cn bd sc tb tsc t0,
+    let a := auth_do_tokw_at p cn bd sc tb tsc t0 in
+    1 <= Z.of_nat (length (attempts (aw_first a))) <= Z.max 0 (p_max_retry p) + 1 /\
+    Z.of_nat (length (attempts (aw_second a))) <= Z.max 0 (p_max_retry p) + 1 /\
+    Z.of_nat (length (attempts (aw_token a))) <= Z.max 0 (p_max_retry p) + 1 /\
+    Z.of_nat (length (attempts (aw_third a))) <= Z.max 0 (p_max_retry p) + 1.
+Proof. exact auth_do_tokw_at_attempts. Qed.
+Print Assumptions C17_token_warm_attempts.
+
+Theorem C17_token_warm_not_replayable :
+  forall p cn bd sc tb tsc t0,
+    (forall st', rewind bd st' = RwNoGetBody \/ rewind bd st' = RwGetBodyErr) ->
+    let a := auth_do_tokw_at p cn bd sc tb tsc t0 in
+    length (attempts (aw_first a)) = 1%nat /\ aw_second a = [] /\ aw_token a = [] /\ aw_third a = [].
+Proof. exact auth_do_tokw_at_not_replayable. Qed.
+Print Assumptions C17_token_warm_not_replayable.
+
+Theorem C17_token_warm_cancel :
+  forall p bd sc tb tsc t0 tc dl,
+    authw_cancel_post tc t0 (auth_do_tokw_at p (Some (tc, dl)) bd sc tb tsc t0).
+Proof. exact auth_do_tokw_at_cancel. Qed.
+Print Assumptions C17_token_warm_cancel.
+
+(* the coarser model auth_do (token served at once) is auth_do_tok with a token service that
+   answers 200 immediately *)
+Theorem C17_token_instant_refines :
+  forall p bd sc tb,
+    p_pred p (OStatus 200 [] 0%N) = PStop ->
+    let a := auth_do false p None bd sc in
+    let k := auth_do_tok p None bd sc tb [] in
+    ak_res k = a_res a /\ ak_first k = a_first a /\ ak_second k = a_second a /\ ak_time k = a_time a.
+Proof. exact auth_do_tok_instant. Qed.
+Print Assumptions C17_token_instant_refines.
+
+(* the two rewind decisions as translated from auth.rewindRequestBody and from the rewind block
+   of Transport.RoundTrip (Generated.GC17.generated_auth_rewind / generated_rt_rewind), by body
+   kind: they differ exactly on http.NoBody without GetBody *)
+Theorem C17_rewind_closed_form :
+  forall bd st, rewind bd st = rewind_closed bd st /\ rt_rewind bd st = rt_rewind_closed bd st.
+Proof. exact (fun bd st => conj (rewind_eq bd st) (rt_rewind_eq bd st)). Qed.
+Print Assumptions C17_rewind_closed_form.
 
 (* a body that cannot be replayed (no GetBody, or GetBody failing) is sent once; the
    transport ends with that answer (or the policy's panic) *)
@@ -191,6 +360,56 @@ Theorem C17_blob_push_oneshot_once :
 Proof. exact blob_push_not_replayable. Qed.
 Print Assumptions C17_blob_push_oneshot_once.
 
+(* blob push / mount fallback with the token requests spelled out (the POST may fetch a token,
+   and so may the PUT when it does not inherit the POST's credentials): every PUT request
+   carries the blob as far as it is read; every token request of the push carries its form *)
+Theorem C17_blob_push_tok_bodies :
+  forall authc p cn bd sc tb tsc,
+    wf_body bd -> wf_body tb ->
+    let u := blob_push_tok authc p cn bd sc tb tsc in
+    bodies_ok tb tsc 0 (attempts (ak_token (uk_post u))) /\
+    match uk_put u with
+    | Some put =>
+      bodies_ok bd sc (length (authk_attempts (uk_post u))) (authk_attempts put) /\
+      bodies_ok tb tsc (length (attempts (ak_token (uk_post u)))) (attempts (ak_token put))
+    | None => True
+    end.
+Proof. exact blob_push_tok_bodies. Qed.
+Print Assumptions C17_blob_push_tok_bodies.
+
+Theorem C17_blob_push_tok_oneshot_once :
+  forall authc p cn bd sc tb tsc,
+    (forall st', rewind bd st' = RwNoGetBody \/ rewind bd st' = RwGetBodyErr) ->
+    match uk_put (blob_push_tok authc p cn bd sc tb tsc) with
+    | Some put => length (authk_attempts put) = 1%nat
+    | None => True
+    end.
+Proof. exact blob_push_tok_not_replayable. Qed.
+Print Assumptions C17_blob_push_tok_oneshot_once.
+
+Theorem C17_blob_push_tok_cancel :
+  forall authc p bd sc tb tsc tc dl,
+    let u := blob_push_tok authc p (Some (tc, dl)) bd sc tb tsc in
+    authk_cancel_post_at tc 0 (uk_res u) (uk_time u) (uk_post u) /\
+    uk_time u <= Z.max 0 tc /\
+    match uk_put u with
+    | Some put => exists t1, t1 <= Z.max 0 tc /\ authk_cancel_post_at tc t1 (uk_res u) (uk_time u) put
+    | None => True
+    end.
+Proof. exact blob_push_tok_cancel. Qed.
+Print Assumptions C17_blob_push_tok_cancel.
+
+(* a cross-repository mount the registry declines (202) falls back to the same POST/PUT
+   protocol with a body read from an io.ReadCloser: the PUT is exactly one request *)
+Theorem C17_mount_fallback_once :
+  forall authc warm0 p cn data sc,
+    match u_put (blob_push_gen authc warm0 p cn (mkBody KOneShot data) sc) with
+    | Some put => length (auth_attempts put) = 1%nat
+    | None => True
+    end.
+Proof. exact mount_fallback_once. Qed.
+Print Assumptions C17_mount_fallback_once.
+
 (* --- cancellation -------------------------------------------------------------- *)
 
 (* context ending at tc, call started at t -- no hypothesis on the policy (MinWait = 0 and zero
@@ -244,6 +463,19 @@ Proof. exact blob_push_cancel. Qed.
 Print Assumptions C17_cancel_blob_push.
 
 (* --- totality of the backoff (F7) ------------------------------------------------- *)
+
+(* the arithmetic and the Retry-After constants of ExponentialBackoff as translated from the
+   source (the Generated.GC17.generated_backoff definitions): temp = backoff x factor^attempt, base interval
+   temp x (1-jitter), jitter bound 2 x jitter x temp; Retry-After on 429, positive, in seconds *)
+Theorem C17_backoff_arith_closed_form :
+  forall e attempt,
+    exp_temp e attempt = (inject_Z (e_base e) * Qpower (e_factor e) attempt)%Q /\
+    exp_a e attempt = (exp_temp e attempt * (1 - e_jitter e))%Q /\
+    exp_n e attempt = ((2 # 1) * e_jitter e * exp_temp e attempt)%Q /\
+    generated_backoff_retry_after_status = 429 /\ generated_backoff_retry_after_unit = 1000000000 /\
+    (forall ra, generated_backoff_retry_after_ok ra = (ra >? 0)).
+Proof. exact exp_arith_eq. Qed.
+Print Assumptions C17_backoff_arith_closed_form.
 
 (* the source as it is now (guard flag re-read from policy.go): ExponentialBackoff
    returns for every parameter choice, attempt and answer *)
@@ -343,6 +575,11 @@ Example ex_cancel_zero_pause :
   o_res out = RCtx /\ o_time out = 5 /\ length (attempts (o_trace out)) = 1%nat.
 Proof. vm_compute. repeat split; reflexivity. Qed.
 
+Example ex_spec :
+  spec_send ex_policy ex_body ex_script 0
+  = (RResp 200 0%N, 1134, [(0, b "manifest"); (110, b "man"); (1130, b "manifest")]).
+Proof. vm_compute. reflexivity. Qed.
+
 (* cancelled in the second pause *)
 Example ex_cancel :
   let out := round_trip ex_policy (Some (151, false)) ex_body (init_state ex_body) ex_script 0 in
@@ -407,6 +644,35 @@ Example ex_nobody :
                                         [mkBeh (OStatus 503 [] 0%N) None 0] 0))) = 1%nat /\
   let a := auth_do false ex_policy None bd [mkBeh (OStatus 401 [] 1%N) None 0; mkBeh (OStatus 200 [] 0%N) None 0] in
   a_res a = RResp 200 0%N /\ length (attempts (a_second a)) = 1%nat.
+Proof. vm_compute. repeat split; reflexivity. Qed.
+
+(* Bearer challenge, the token service fails once (503) and then answers: the OAuth2 form
+   goes out whole twice, the body goes to the registry whole twice *)
+Example ex_token :
+  let a := auth_do_tok ex_policy None ex_body
+             [mkBeh (OStatus 401 [] 2%N) None 0; mkBeh (OStatus 201 [] 0%N) None 0]
+             (mkBody KReplay (b "grant_type=password")) [mkBeh (OStatus 503 [] 0%N) None 4; mkBeh (OStatus 200 [] 0%N) None 4] in
+  ak_res a = RResp 201 0%N /\
+  map snd (attempts (ak_token a)) = [b "grant_type=password"; b "grant_type=password"] /\
+  attempts (ak_second a) = [(108, b "manifest")].
+Proof. vm_compute. repeat split; reflexivity. Qed.
+
+(* the token service refuses: Do ends with that error, nothing is sent again *)
+Example ex_token_refused :
+  let a := auth_do_tok ex_policy None ex_body [mkBeh (OStatus 401 [] 2%N) None 0]
+                       (mkBody KNone []) [mkBeh (OStatus 403 [] 0%N) None 0] in
+  ak_res a = RTokenResp 403 /\ ak_second a = [].
+Proof. vm_compute. split; reflexivity. Qed.
+
+(* blob push: the POST is challenged and its token request fails once; the PUT inherits the
+   credentials and is retried once *)
+Example ex_blob_push_tok :
+  let u := blob_push_tok true ex_policy None ex_body
+             [mkBeh (OStatus 401 [] 2%N) None 0; mkBeh (OStatus 202 [] 0%N) None 0;
+              mkBeh (OStatus 502 [] 0%N) None 0; mkBeh (OStatus 201 [] 0%N) None 0]
+             (mkBody KNone []) [mkBeh (OStatus 503 [] 0%N) None 0; mkBeh (OStatus 200 [] 0%N) None 0] in
+  uk_res u = RResp 201 0%N /\ length (attempts (ak_token (uk_post u))) = 2%nat /\
+  match uk_put u with Some put => map snd (authk_attempts put) = [b "manifest"; b "manifest"] | None => False end.
 Proof. vm_compute. repeat split; reflexivity. Qed.
 
 (* Retry-After: 2 within [100ns, 3s]: honoured *)
